@@ -173,12 +173,13 @@ func walkerGoroutines() int {
 	return strings.Count(buf.String(), "dag.(*DAG).walkAncestors(")
 }
 
-// settledWalkers polls until no walker goroutine is left or one second has passed.
+// settledWalkers polls until no walker goroutine is left or the settle time has passed.
 func settledWalkers() int {
-	deadline := time.Now().Add(time.Second)
+	// a walker that was abandoned stays for ever, one that is winding down after its consumer has left is gone within
+	// microseconds - on an idle machine; waiting longer costs nothing in precision
+	deadline := time.Now().Add(5 * time.Second)
 	if overloaded() {
-		// operations that are still finishing legitimately hold walkers; on an overloaded machine give them time
-		deadline = time.Now().Add(20 * time.Second)
+		deadline = time.Now().Add(30 * time.Second)
 	}
 	for {
 		n := walkerGoroutines()
